@@ -165,6 +165,28 @@ func genTimes(rt *rapid.T, n int, res int64, slow bool) ([]int64, string) {
 	return ts, fmt.Sprintf("%s/%d", mode, interval)
 }
 
+// applyNaNRuns overwrites 0..3 index ranges of xs with NaNs (one kind per run: ordinary or stale
+// marker). A run may be as long as the series, so with series cut into several batches whole batches
+// consist of NaNs only (e.g. a summary quantile without observations for a day).
+func applyNaNRuns(rt *rapid.T, xs []smpl) int {
+	runs := rapid.SampledFrom([]int{0, 0, 0, 1, 1, 2, 3}).Draw(rt, "nanRuns")
+	longest := 0
+	for r := 0; r < runs && len(xs) > 0; r++ {
+		start := rapid.IntRange(0, len(xs)-1).Draw(rt, "nanRunStart")
+		n := rapid.IntRange(1, len(xs)).Draw(rt, "nanRunLen")
+		v := math.NaN()
+		if rapid.Bool().Draw(rt, "nanRunStale") {
+			v = staleNaN
+		}
+		end := min(len(xs), start+n)
+		for i := start; i < end; i++ {
+			xs[i].v = v
+		}
+		longest = max(longest, end-start)
+	}
+	return longest
+}
+
 // genNaN decides whether the next sample is a NaN (ordinary or stale marker).
 func genNaN(rt *rapid.T, nanRate int) (float64, bool) {
 	if nanRate > 0 && rapid.IntRange(1, nanRate).Draw(rt, "nan?") == 1 {
@@ -206,6 +228,9 @@ func genGauge(rt *rapid.T, res int64, slow bool) ([]smpl, string) {
 			xs[i].v = cst
 		}
 	}
+	if run := applyNaNRuns(rt, xs); run > 0 {
+		return xs, fmt.Sprintf("%s/%s/nanrun", tmode, vkind)
+	}
 	return xs, tmode + "/" + vkind
 }
 
@@ -245,6 +270,7 @@ func genCounter(rt *rapid.T, res int64, slow bool) ([]smpl, string) {
 		}
 		xs[i].v = float64(cur) / div
 	}
+	applyNaNRuns(rt, xs)
 	return xs, fmt.Sprintf("%s/reset1in%d/div%v", tmode, resetRate, div)
 }
 
